@@ -1,6 +1,7 @@
 // Verus unit c27_okey — C27: index key encoding preserves order and equality.
 // Bodies of encode_ordered_value / encode_index_key are extracted from /repo at run time.
 //@unit c27_okey
+//@rlimit 50
 //@property C27
 use vstd::prelude::*;
 use std::collections::BTreeMap;
